@@ -63,6 +63,22 @@ def gen_history(rng, case, maxlen):
             ops += [["set_initial", call], [rng.choice(["sample", "solve", "value"])], ["set_initial", call2]]
             c.setdefault("calls", []).extend([call, call2])
             continue
+        zs0 = [o_ for o_ in c10.objects(c) if o_["g"] == "GZ"] if c["method"]["kind"] == "DC" else []
+        xs0 = [o_ for o_ in c10.objects(c) if o_["g"] in ("GX", "GU")]
+        if step == npre and zs0 and xs0 and rng.random() < 0.6:
+            # a guess for an algebraic variable, a query, a guess for something else given to the transcribed OCP,
+            # and an edit that leads to a new transcription: the stored guesses must all survive
+            oz, ox = rng.choice(zs0), rng.choice(xs0)
+            cz = {"obj": [oz["kind"], oz["idx"]], "g": "GZ", "slot": oz["slot"], "len": oz["len"], "form": "const",
+                  "value": jq(gen.dyadic_nz(rng, -3, 3, 2)), "after": False}
+            cx = {"obj": [ox["kind"], ox["idx"]], "g": ox["g"], "slot": ox["slot"], "len": ox["len"], "form": "const",
+                  "value": jq(dyadic(rng, -3, 3, 2)), "after": False}
+            sv = ["ipopt", {"ipopt.print_level": 0, "print_time": False, "ipopt.sb": "yes",
+                            "ipopt.max_iter": rng.choice([1, 2, 3]), "ipopt.tol": rng.choice([1e-6, 1e-4])}]
+            ops += [["set_initial", cz], [rng.choice(["sample", "solve", "value"])], ["set_initial", cx], ["solver", sv]]
+            c.setdefault("calls", []).extend([cz, cx])
+            c["solver"] = sv
+            continue
         if r < 0.25:
             # 'sol_sample': a query on the solution object of an earlier solve (not an operation on the OCP: the
             # next solve must honour the edits made since, whether or not the old solution can still be read)
